@@ -70,7 +70,10 @@ class QueueStorage(object):
         pass
 
     def _remove_delivered_rcpts(self, envelope, rcpt_indexes):
-        for index in sorted(rcpt_indexes, reverse=True):
+        # Indexes are applied in the order they were recorded: each call to
+        # set_recipients_delivered() records its indexes highest-first, and
+        # they refer to the recipients left over by the calls before it.
+        for index in rcpt_indexes:
             del envelope.recipients[index]
 
     def write(self, envelope, timestamp):
@@ -115,9 +118,11 @@ class QueueStorage(object):
         attempts.
 
         :param id: The unique identifier string for the message.
-        :param rcpt_indexes: List of indexes in the original envelope's
+        :param rcpt_indexes: Indexes in the
                              :attr:`~slimta.envelope.Envelope.recipients` list
-                             to mark as delivered.
+                             of the envelope as currently returned by
+                             :meth:`.get` (i.e. without the recipients marked
+                             by earlier calls) to mark as delivered.
         :raises: :class:`QueueError`
 
         """
